@@ -96,6 +96,8 @@ func New[T any](
 		tree.locker = &sync.RWMutex{}
 	}
 
+	tree.buildMethods(0) // 生成 OPTIONS * 的 Allow 报头
+
 	return tree
 }
 
